@@ -358,6 +358,7 @@ def run(repo: Repo, chk: Check):
         chk.judge("R08.c", f"types:{fname}:passes its output_mode on", len(c.args) >= 3 and isinstance(c.args[2], ast.Name) and c.args[2].id in [a.arg for a in fn.args.args],
                   "the mode argument is not the function's own output_mode parameter", None, wf)
 
+    chk.guarded(r08c_unwrap, repo, chk)
     chk.guarded(rule_format_enum, repo, chk, "R08.d")
 
     # ------------------------------------------------------------ R08.e / R08.f
@@ -424,3 +425,85 @@ def _disj(test, pol):
     """(not (a or b)) gives both not a and not b."""
     from ..cfg import decompose
     return decompose(test, pol)
+
+
+# ---------------------------------------------------------------------- R08.c (a name that arrives as the text HASH("...") / "...")
+def r08c_unwrap(repo, chk, R="R08.c"):
+    """compute_hash removes exactly the wrapper it tested for: the verbose spelling then names the same string whose hash the
+    compact spelling carries."""
+    t = repo.mod("types")
+    fn = t.func("compute_hash")
+    cfg, rd = fn_ctx(fn)
+    where = f"{t.path}:{fn.lineno} in compute_hash"
+    from ..modconst import module_constants
+    consts = module_constants(t)
+
+    def const_str(e):
+        if isinstance(e, ast.Constant) and isinstance(e.value, str):
+            return e.value
+        if isinstance(e, ast.Name) and isinstance(consts.get(e.id), str):
+            return consts[e.id]
+        return None
+
+    def length(e):
+        """integer value of a slice bound: literal, -literal, len(<const str>), -len(<const str>)"""
+        if e is None:
+            return None
+        if isinstance(e, ast.Constant) and isinstance(e.value, int):
+            return e.value
+        if isinstance(e, ast.UnaryOp) and isinstance(e.op, ast.USub):
+            v = length(e.operand)
+            return None if v is None else -v
+        if isinstance(e, ast.Call) and norm(e.func) == "len" and len(e.args) == 1 and const_str(e.args[0]) is not None:
+            return len(const_str(e.args[0]))
+        return None
+    n = 0
+    for st in ast.walk(fn):
+        if not (isinstance(st, ast.Assign) and len(st.targets) == 1 and isinstance(st.targets[0], ast.Name)):
+            continue
+        var = st.targets[0].id
+        ids = live_ids(cfg, st)
+        if not ids:
+            continue
+        pre = suf = None
+        for tst, pol in guard_atoms(cfg, ids[0]):
+            if pol and isinstance(tst, ast.Call) and isinstance(tst.func, ast.Attribute) and tst.func.attr in ("startswith", "endswith") and tst.args and const_str(tst.args[0]) is not None:
+                if tst.func.attr == "startswith":
+                    pre = const_str(tst.args[0])
+                else:
+                    suf = const_str(tst.args[0])
+        if pre is None or suf is None:
+            continue
+        n += 1
+        v = st.value
+        key = f"types:compute_hash:the wrapper {pre}...{suf} is removed exactly"
+        # slicing
+        if isinstance(v, ast.Subscript) and isinstance(v.slice, ast.Slice) and v.slice.step is None:
+            lo, hi = length(v.slice.lower), length(v.slice.upper)
+            if lo is None or hi is None:
+                raise AnalysisError(f"compute_hash: slice bounds of {norm(v)} not evaluated")
+            chk.judge(R, key, lo == len(pre) and hi == -len(suf),
+                      f"under the test for the wrapper {pre!r} ... {suf!r} the name becomes {norm(v)}: that cuts {lo} characters at the front and {-hi} at the end, "
+                      f"the wrapper has {len(pre)} and {len(suf)}", {"cut": [lo, hi]}, where)
+            continue
+        # method chain
+        chain = []
+        cur = v
+        while isinstance(cur, ast.Call) and isinstance(cur.func, ast.Attribute):
+            chain.append(cur)
+            cur = cur.func.value
+        names = [c.func.attr for c in chain]
+        strips = [c for c in chain if c.func.attr in ("strip", "lstrip", "rstrip") and c.args and const_str(c.args[0]) is not None and len(const_str(c.args[0])) > 0]
+        if strips:
+            c = strips[0]
+            chk.bad(R, key, f"the wrapper is removed with .{c.func.attr}({const_str(c.args[0])!r}), which strips every leading/trailing character of that SET: a name that itself ends in "
+                    f"one of them (HASH(\"Tank (A)\")) loses more than the wrapper, so the verbose spelling names another string than the number the compact output carries",
+                    {"call": norm(c)[:80]}, where)
+            continue
+        if set(names) <= {"removeprefix", "removesuffix"} and names:
+            args_ok = all(const_str(c.args[0]) == (pre if c.func.attr == "removeprefix" else suf) for c in chain if c.args)
+            chk.judge(R, key, args_ok and "removeprefix" in names and "removesuffix" in names, f"the wrapper is removed by {norm(v)}", None, where)
+            continue
+        raise AnalysisError(f"compute_hash: how the wrapper is removed was not understood: {norm(v)[:80]}")
+    if n == 0:
+        raise AnalysisError("compute_hash: removal of the HASH(\"...\") wrapper not found")
